@@ -392,6 +392,7 @@ class FullWorld:
         """No new faults, no new application calls: every frame held back is delivered, every TCP attempt completes,
         every unit in flight arrives, every queued eventual call runs, every loss is noticed - until nothing moves.
         Returns True when the real system came to rest."""
+        idle = 0
         for _ in range(limit):
             moved = False
             for n in ("L", "F"):
@@ -411,13 +412,8 @@ class FullWorld:
                             moved = True
                             break
                         self.links[idx] = None
-            if not moved:
-                for n in ("L", "F"):
-                    if self._run_eq_call(n, "accept") or self._run_eq_call(n, "lost"):
-                        while self._run_eq_call(n, "lost"):
-                            pass
-                        moved = True
-                        break
+            if not moved and not self.units_first:
+                moved = self._run_out_turns()
             if not moved:
                 for i, link in sorted(self.links.items()):
                     if link is None:
@@ -437,13 +433,31 @@ class FullWorld:
                             break
                     if moved:
                         break
+            if not moved and self.units_first:
+                moved = self._run_out_turns()
             self.run_auto_timers()
             self._new_attempts()
             self.pump_mailbox()
-            if not moved:
+            # (the timers just run may have produced new work - an eventual-queue turn that writes records: at rest means
+            # two rounds in a row in which nothing moved)
+            idle = 0 if moved else idle + 1
+            if idle >= 2:
                 self.snapshot()
                 return True
         self.snapshot()
+        return False
+
+    # which comes first when both are possible: a queued eventual-queue turn (Connector.accept(), a loss being noticed), or
+    # the next unit in flight on some link.  units_first: records sent right behind the KCM reach a Follower whose accept()
+    # turn has not run yet
+    units_first = False
+
+    def _run_out_turns(self):
+        for n in ("L", "F"):
+            if self._run_eq_call(n, "accept") or self._run_eq_call(n, "lost"):
+                while self._run_eq_call(n, "lost"):
+                    pass
+                return True
         return False
 
     def network_cut_all_current(self):
